@@ -1,0 +1,11 @@
+//go:build !verif
+
+// Package verifhook provides scheduling seams for deterministic simulation.
+// Without the "verif" build tag every function here is an empty, inlinable no-op.
+package verifhook
+
+// Yield marks a point at which a simulator may decide which goroutine proceeds.
+func Yield(point, key string) {}
+
+// Note records an event for a simulator without ever blocking.
+func Note(point, key string) {}
